@@ -123,7 +123,7 @@ def new_delete_rule(prog, res):
                     res.viol('new-delete', 'local %s' % key[3], f.loc(nid), 'allocated buffer is not released on every normal path', function=f.sig, expr='leak:' + key[3])
                 else:
                     res.ok('new-delete', 'local %s released on every normal path' % key[3], f.loc(nid), function=f.sig, expr='leak:' + key[3])
-    res.minimum('new expressions', nnew, 12)
+    res.minimum('new expressions', nnew, 8)
     res.minimum('delete expressions', ndel, 4)
 
 
